@@ -611,29 +611,39 @@ def search_stub_laws(ctx: Ctx) -> SearchResult:
 		ser = ReflectionSerializer(eps, traits)  # type: ignore[arg-type]
 		db = SymbolDB()
 		spec: list[str] = []
+		# every second table is declared out of dependency order (forward references): the class graph stays acyclic, the entries are
+		# inserted in shuffled order — the export has to pull every class entry's own references in front of it
+		shuffled = i % 4 == 2
+		pending: list[tuple[str, Any]] = []
 		for pos, k in enumerate(keys):
 			ff = gen_forest(rng, 1 + i % 3, 2, keys[:pos]) if pos and rng.random() < 0.6 else []
 			entries[k] = class_entry(traits, nodes[k], build_attrs(entries, ff))
-			db[k] = entries[k]
+			pending.append((k, entries[k]))
 			spec.append(f'class {k} {forest_sexp(ff)}')
 		for j in range(rng.randint(1, 8)):
 			m = rng.choice(MODS)
 			k = f'{m}#v{j}'
 			origin = entries[rng.choice(keys)]
 			var = eps.add(StubNode(m, f'file_input.assign[{j}]', k, False, True))
-			kind = rng.choice(['declare', 'declare', 'stack', 'to'])
+			# `to` gives the entry a via of another class; only an own type key or a key of another module is ordered before the entry
+			# (Loaded.viaOK), so shuffled tables use declare / stack only
+			kind = rng.choice(['declare', 'declare', 'stack', 'to'] if not shuffled else ['declare', 'stack'])
 			e = origin.declare(var) if kind == 'declare' else origin.stack(var) if kind == 'stack' else entries[rng.choice(keys)].to(var, origin)  # type: ignore[arg-type]
 			ff = gen_forest(rng, 1 + i % 4, 3, keys, wide=i % 8 == 0) if rng.random() < 0.7 else []
 			if ff:
 				e.extends(*build_attrs(entries, ff))
-			db[k] = e
+			pending.append((k, e))
 			spec.append(f'{kind} {k} {forest_sexp(ff)}')
-		rep = {'table': spec}
+		if shuffled:
+			rng.shuffle(pending)
+		for k, e in pending:
+			db[k] = e
+		rep = {'table': spec, 'insertion_order': [k for k, _ in pending]}
 		for m in MODS:
 			try:
 				before = {k: stub_sym(s) for k, s in db.items(m)}
 				data = db.to_json(ser, m)
-				if list(data.keys()) != list(before.keys()):
+				if set(data.keys()) != set(before.keys()) or (not shuffled and list(data.keys()) != list(before.keys())):
 					found('stub:export-keys', f'export of {m}: keys {list(data)[:6]} for table keys {list(before)[:6]} (dependency-ordered table: the export order is the table order)', {**rep, 'module': m})
 				bad = order_violations(data, m)
 				if bad:
@@ -754,7 +764,16 @@ class ProgGen:
 		if later and self.forward and rng.random() < 0.5:
 			g, arity = rng.choice(later)
 			inner = f"{g}[{', '.join(self.type_expr(depth - 1, scope, tvars) for _ in range(arity))}]" if arity else g
-			t = inner if rng.random() < 0.6 else f'list[{inner}]'
+			r = rng.random()
+			if r < 0.35 and scope['generics']:
+				# a generic class declared earlier, applied to the class declared later: the earlier class is already exported when
+				# this annotation is walked, its type argument is not
+				g0, a0 = rng.choice(scope['generics'])
+				t = f"{g0}[{', '.join([inner] + [self.type_expr(depth - 1, scope, tvars) for _ in range(a0 - 1)])}]"
+			elif r < 0.7:
+				t = inner
+			else:
+				t = rng.choice([f'list[{inner}]', f'dict[str, {inner}]', f'tuple[int, {inner}]', f'{inner} | None'])
 			return f"'{t}'"
 		return self.type_expr(depth, scope, tvars)
 
@@ -937,8 +956,17 @@ FIXED_PROGRAMS: list[tuple[str, dict[str, str], str]] = [
 	}, 'genmod_b'),
 ]
 
-# witnesses of the export-order defect (corpus/C14): a generic class is mentioned with type arguments before the
+# regression for the export-order defect fixed in 95feeba (corpus/C14): a generic class is mentioned with type arguments before the
 # declaration of its own type parameter
+# a generic class that is already exported, applied to a class declared after its user (regression for the walk of the attributes
+# of an already listed class)
+LISTED_GENERIC_FORWARD_ARG = ('from typing import Generic, TypeVar\n'
+	"T = TypeVar('T')\n"
+	'class G(Generic[T]): ...\n'
+	'def g0(a: G[int]) -> None: ...\n'
+	"def f(x: 'G[B]', y: 'dict[str, list[G[B]]]') -> None: ...\n"
+	'class B: ...\n')
+
 ORDER_WITNESS = ('from typing import Generic, TypeVar\n'
 	"def f(x: 'G[int]') -> None: ...\n"
 	"T = TypeVar('T')\n"
@@ -1025,6 +1053,7 @@ def load_programs(ctx: Ctx, stream: str, n_generated: int, real_modules: list[st
 	stats: Counter[str] = Counter()
 	todo: list[tuple[str, str, dict[str, str], str]] = [('fixed', n, s, e) for n, s, e in FIXED_PROGRAMS]
 	todo.append(('fixed', 'order-witness', {'__main__': ORDER_WITNESS}, '__main__'))
+	todo.append(('fixed', 'listed-generic-forward-arg', {'__main__': LISTED_GENERIC_FORWARD_ARG}, '__main__'))
 	for fn in sorted(os.listdir(os.path.join(common.CORPUS_DIR, PROP))) if os.path.isdir(os.path.join(common.CORPUS_DIR, PROP)) else []:
 		with open(os.path.join(common.CORPUS_DIR, PROP, fn), encoding='utf-8') as f:
 			rec = json.load(f)
@@ -1093,7 +1122,7 @@ def forest_keys(f: Forest) -> list[str]:
 
 def invariants_of(db: Any, data: dict[str, dict[str, Any]], mod: str) -> dict[str, bool]:
 	"""The hypotheses of the Lean theorems, evaluated on a real table (statistics for the evidence, not an oracle):
-	SymOK (C14.rt) and HoistSafe (C14.order_partial), written after lean/Tranp/Lemmas/SymbolJson.lean."""
+	SymOK (C14.rt) and Loaded (C14.order), written after lean/Tranp/Lemmas/SymbolJson.lean."""
 	import rogw.tranp.syntax.node.definition as defs
 	items = [(k, s) for k, s in db.items()]
 	table = dict(items)
@@ -1124,26 +1153,47 @@ def invariants_of(db: Any, data: dict[str, dict[str, Any]], mod: str) -> dict[st
 			ok = o is not None and o.types == s.types and (bool(f) or not o.attrs)
 		sym_ok = sym_ok and ok and good(f)
 
-	def hoist_node(k: str, cs: Forest, E: set[str]) -> bool:
-		if k.split('#')[0] == mod and k not in E:
-			below = set(forest_keys(cs))
-			if not all(r in base or r in E or (r.split('#')[0] == mod and r in below) for r in refs(k)):
-				return False
-		return all(hoist_node(c, ccs, E) for c, ccs in cs)
+	# Loaded (C14.order): closed, class keys, acyclic class entries, via
+	def is_cls(x: Any) -> bool:
+		return x.node.is_a(defs.ClassDef) and x.types == x.decl
 
-	hoist = True
-	E: set[str] = set()
+	closed = all(r in table for k in data for r in refs(k))
+	cls_keys = True
+	via_ok = True
+	graph: dict[str, set[str]] = {}
 	for k, s in items:
 		if k.split('#')[0] != mod:
 			continue
-		root = (s.types.fullyname, obs_forest(s.attrs))
-		tree_keys = set(forest_keys([root]))
-		if not hoist_node(root[0], root[1], E):
-			hoist = False
-		if not all(r in base or r in E or (r.split('#')[0] == mod and r in tree_keys) for r in refs(k)):
-			hoist = False
-		E.add(k)
-	return {'SymOK': sym_ok, 'HoistSafe': hoist}
+		tree_keys = [s.types.fullyname, *forest_keys(obs_forest(s.attrs))]
+		for c in tree_keys:
+			if c.split('#')[0] == mod and not (c in table and is_cls(table[c])):
+				cls_keys = False
+		if is_cls(s):
+			graph[k] = {c for c in forest_keys(obs_forest(s.attrs)) if c.split('#')[0] == mod}
+		else:
+			v = s.via.types.fullyname
+			if not (v in base or v in tree_keys):
+				via_ok = False
+	# acyclic = a rank exists
+	state: dict[str, int] = {}
+	acyclic = True
+	for start in graph:
+		stack = [(start, iter(sorted(graph.get(start, ()))))]
+		if state.get(start):
+			continue
+		state[start] = 1
+		while stack and acyclic:
+			node, it = stack[-1]
+			nxt = next(it, None)
+			if nxt is None:
+				state[node] = 2
+				stack.pop()
+			elif state.get(nxt) == 1:
+				acyclic = False
+			elif not state.get(nxt):
+				state[nxt] = 1
+				stack.append((nxt, iter(sorted(graph.get(nxt, ())))))
+	return {'SymOK': sym_ok, 'Loaded': closed and cls_keys and via_ok and acyclic}
 
 
 def check_module(ld: Loaded, mod: str) -> list[Finding]:
@@ -1258,9 +1308,9 @@ def real_pass(ctx: Ctx) -> tuple[list[Stream], SearchResult]:
 			try:
 				inv = invariants_of(db, db.to_json(ser, m), m)
 				order_ok = not any(f.key.startswith('order:') for f in fnd)
-				inv_hist[f"SymOK={int(inv['SymOK'])},HoistSafe={int(inv['HoistSafe'])},order-law={'holds' if order_ok else 'fails'}"] += 1
-				if inv['HoistSafe'] and not order_ok:
-					# C14.order_partial says this cannot happen if model = code: report it as a broken tie, not as a failing input
+				inv_hist[f"SymOK={int(inv['SymOK'])},Loaded={int(inv['Loaded'])},order-law={'holds' if order_ok else 'fails'}"] += 1
+				if inv['Loaded'] and not order_ok:
+					# C14.order says this cannot happen if model = code: report it as a broken tie (the law search reports the failing input)
 					inv_broken.append(f'{ld.name}:{m}')
 			except Exception as e:  # noqa: BLE001
 				inv_hist[f'invariants:raises:{exc_enum(e)}'] += 1
@@ -1284,8 +1334,8 @@ def real_pass(ctx: Ctx) -> tuple[list[Stream], SearchResult]:
 	s3.cases = sum(inv_hist.values())
 	s3.distinct = len(inv_hist)
 	s3.histogram = dict(inv_hist)
-	s3.disagreements = [{'case': n, 'real': 'order law fails', 'model': 'HoistSafe holds, so C14.order_partial forbids it'} for n in inv_broken]
-	s3.note = 'hypotheses of C14.rt (SymOK) and C14.order_partial (HoistSafe) evaluated on each real table; a table with HoistSafe whose export violates the order law would contradict the theorem (model ≠ code)'
+	s3.disagreements = [{'case': n, 'real': 'order law fails', 'model': 'Loaded holds, so C14.order forbids it'} for n in inv_broken]
+	s3.note = 'hypotheses of C14.rt (SymOK) and C14.order (Loaded: closed, class keys, acyclic class entries, via) evaluated on each real table; a Loaded table whose export violates the order law would contradict the theorem (model ≠ code)'
 	res.note = ('programs tranp cannot type (load or attribute resolution raises) are outside the domain and counted under load:*:unsupported; '
 		'empty modules (no symbol) are not asked to be `completed`: import_json marks a module only when it imports one of its keys (db.py:176-180)')
 	s1 = common.correspond('serialize-real', ser_cases, FAMILY, classify=lambda d: f"{d['kind']}:depth={min(d['depth'], 6)}{'+' if d['depth'] >= 6 else ''}:width{'>=10' if d['width'] >= 10 else '<10'}")
@@ -1308,10 +1358,9 @@ STATEMENTS = {
 	'C14.import_idem': 'importing the same rows twice gives the table of importing them once, when no row refers to its own or a later key',
 	'C14.export_rows': 'to_json(M), M non-empty: one row per key of M, distinct keys in _order_keys order, each row = serialize of the table entry, all keys of M present',
 	'C14.rt': 'export of module M, import into the table of the other modules: succeeds, every key of M is restored with the same types / node / decl / attribute forest, M is completed — under SymOK (entry well-formedness) and the order law',
-	'C14.order_statement (def)': 'for every closed table and non-empty module: no exported row refers to a key of the module that is not exported earlier',
-	'C14.order_counterexample': 'the statement is false: the table of `def f(x: G[int])` / `T = TypeVar` / `class G(Generic[T])` is exported as G, f, T',
-	'C14.order_partial': 'the order law holds under HoistSafe: every hoisted class has its own references in other modules, declared before the mentioning symbol, or beneath the mention',
-	'C14.rt_hoistSafe': 'SymOK + HoistSafe alone give: import succeeds, restores every key of M, completes M, and a second import changes nothing',
+	'C14.order_statement (def)': 'for every Loaded table (references are keys, in-module type keys are class symbols, class symbols do not refer to themselves through their attributes, via is another module\'s key or an own type key) and non-empty module: no exported row refers to a key of the module that is not exported earlier',
+	'C14.order': 'order_statement is a theorem for _order_keys_recursive after fix 95feeba (fuel = number of table keys + 1 is shown sufficient under the rank hypothesis)',
+	'C14.rt_loaded': 'SymOK + Loaded alone give: import succeeds, restores every key of M, completes M, and a second import changes nothing',
 }
 
 
@@ -1327,9 +1376,8 @@ def run(ctx: Ctx) -> int:
 	return common.finish(ctx, proof, streams, searches,
 		statements=STATEMENTS,
 		partial={
-			'proved': 'attribute flattening / rebuilding round trip for every forest; grouping fact; import idempotence; completed; table round trip under stated invariants; export-order law under the hoisting invariant',
-			'false_on_current_code': 'the unconditional export-order law (order_counterexample; replayed by the search: corpus/C14/order-forward-generic.json)',
-			'correspondence_only': 'the loaded table satisfies the invariants (self-typed class entries, attribute-less leaves) — checked by the search on the real code',
+			'proved': 'attribute flattening / rebuilding round trip for every forest; grouping fact; import idempotence; completed; table round trip under SymOK; the export-order law for every Loaded table (repaired algorithm)',
+			'correspondence_only': 'loaded tables satisfy SymOK and Loaded (evaluated on every real table, stream invariants-real); termination fuel of the order walk on tables with self-referring class entries (stream order-stub)',
 		},
 		assumptions=[
 			"index path components are what str(index) produces (ASCII digits, no sign, no leading zero); other spellings accepted by int() are never generated",
